@@ -260,22 +260,35 @@ def specC09 (h : List Op) (failAt : Option Nat) (o : Obs) : Option String :=
 
 /-! ### C14: rendering -/
 
-def specC14 (h : List Op) (o : Obs) : Option String :=
+/-- the rendering clauses for one event against one audit record: the first clause that fails -/
+def renderClause (e : AEvent) (a : ObsAction) : Option String :=
+  if a.ev.typ ≠ "UserAction" then some "type" else
+  if a.ev.component ≠ "auditd" then some "component" else
+  if a.aid ≠ e.ses then some "auditId" else
+  if (a.ev.outcome = "succeeded") ≠ (e.result = strOf "success") ||
+     (a.ev.outcome ≠ "succeeded" && a.ev.outcome ≠ "failed") then some "outcome" else
+  if aLookup "action" a.ev.metaExtra ≠ some e.action then some "action" else
+  if aLookup "how" a.ev.metaExtra ≠ some e.how then some "how" else
+  if aLookup "object" a.ev.metaExtra ≠ some e.object then some "object" else
+  if aLookup "process_args" a.ev.metaExtra ≠ (if e.args.isEmpty then none else some (joinNul e.args))
+    then some "process_args" else
+  if !a.ev.data.isEmpty then some "data" else none
+
+/-- every emitted event renders SOME audit record of the history that carries its time stamp (when none does, the
+clause reported is the one the first such record fails). Proved of the model for all histories:
+`C14S.render_spec_holds`. -/
+def specRender (h : List Op) (o : Obs) : Option String :=
   o.acts.findSome? fun (a : ObsAction) =>
+    if (auditRecs h).any fun r => r.2.ts = a.ts && (renderClause r.2 a).isNone then none else
     match (auditRecs h).find? fun r => r.2.ts = a.ts with
     | none => some "event-with-unknown-timestamp"
-    | some (_, e) =>
-      if a.ev.typ ≠ "UserAction" then some "type" else
-      if a.ev.component ≠ "auditd" then some "component" else
-      if a.aid ≠ e.ses then some "auditId" else
-      if (a.ev.outcome = "succeeded") ≠ (e.result = strOf "success") ||
-         (a.ev.outcome ≠ "succeeded" && a.ev.outcome ≠ "failed") then some "outcome" else
-      if aLookup "action" a.ev.metaExtra ≠ some e.action then some "action" else
-      if aLookup "how" a.ev.metaExtra ≠ some e.how then some "how" else
-      if aLookup "object" a.ev.metaExtra ≠ some e.object then some "object" else
-      if aLookup "process_args" a.ev.metaExtra ≠ (if e.args.isEmpty then none else some (joinNul e.args))
-        then some "process_args" else
-      if !a.ev.data.isEmpty then some "data" else
+    | some (_, e) => (renderClause e a).orElse fun _ => some "rendering"
+
+def specC14 (h : List Op) (o : Obs) : Option String :=
+  match specRender h o with
+  | some c => some c
+  | none =>
+    o.acts.findSome? fun (a : ObsAction) =>
       -- all events of one session carry identical identity content — in histories emitting from one
       -- login per PID (the property's quantifier: a second login under a PID in use re-binds its session)
       if (loginOps h).all (fun l => count (fun l' => l'.2.pid = l.2.pid) (loginOps h) = 1) &&
